@@ -253,9 +253,11 @@ type lruPair struct {
 	model  map[interface{}]int
 }
 
-func lruOps() []seq.Op[*lruPair] {
+func lruOps() []seq.Op[*lruPair] { return lruOpsK(ckeys) }
+
+func lruOpsK(keys []interface{}) []seq.Op[*lruPair] {
 	var o []seq.Op[*lruPair]
-	for _, k := range ckeys {
+	for _, k := range keys {
 		k := k
 		for _, op := range []string{"Set", "Get", "Peek", "Exist", "Delete"} {
 			op := op
@@ -278,7 +280,37 @@ func lruOps() []seq.Op[*lruPair] {
 	return o
 }
 
-func lruAfter(s *lruPair) string {
+func lruAfter(s *lruPair) string { return lruAfterOld(s) }
+
+// routed: n unsharded LRUs of the per-shard capacity, keys routed by the public remap index - what
+// "capacity applied per shard" means when the capacity does bind.
+func routed(n uint64, xh bool, mk func() func(op string, k interface{}, v int) string) func(op string, k interface{}, v int) string {
+	rm := remap.NewReMap(remap.WithPrime(n))
+	var shards []func(op string, k interface{}, v int) string
+	for i := uint64(0); i < n; i++ {
+		shards = append(shards, mk())
+	}
+	return func(op string, k interface{}, v int) string {
+		i := rm.SimpleIndex(k)
+		if xh {
+			i = rm.XHashIndex(k)
+		}
+		return shards[i](op, k, v)
+	}
+}
+
+func lruAfterK(keys []interface{}) func(s *lruPair) string {
+	return func(s *lruPair) string {
+		for _, k := range keys {
+			if a, b := s.wide("Peek", k, 0), s.single("Peek", k, 0); a != b {
+				return fmt.Sprintf("Peek(%s): sharded LRU answers %s, the per-shard reference %s", kname(k), a, b)
+			}
+		}
+		return ""
+	}
+}
+
+func lruAfterOld(s *lruPair) string {
 	for _, k := range ckeys {
 		if a, b := s.wide("Peek", k, 0), s.single("Peek", k, 0); a != b {
 			return fmt.Sprintf("Peek(%s): sharded LRU answers %s, unsharded %s", kname(k), a, b)
@@ -619,12 +651,18 @@ func smallCapacity(c *seq.Ctx) {
 		new  func(capacity int64, opt remap.Option) func(op string, k interface{}, v int) string
 	}
 	mks := []mk{
-		{"cache.NeWideLRUCache", func(cp int64, o remap.Option) func(string, interface{}, int) string { return facade(cache.NeWideLRUCache(cp, o)) }},
+		{"cache.NeWideLRUCache", func(cp int64, o remap.Option) func(string, interface{}, int) string {
+			return facade(cache.NeWideLRUCache(cp, o))
+		}},
 		{"cache.NewWideXHashLRUCache", func(cp int64, o remap.Option) func(string, interface{}, int) string {
 			return facade(cache.NewWideXHashLRUCache(cp, o))
 		}},
-		{"tiny.NeWideLRU", func(cp int64, o remap.Option) func(string, interface{}, int) string { return tfacade(tiny.NeWideLRU(cp, o)) }},
-		{"tiny.NewWideXHashLRU", func(cp int64, o remap.Option) func(string, interface{}, int) string { return tfacade(tiny.NewWideXHashLRU(cp, o)) }},
+		{"tiny.NeWideLRU", func(cp int64, o remap.Option) func(string, interface{}, int) string {
+			return tfacade(tiny.NeWideLRU(cp, o))
+		}},
+		{"tiny.NewWideXHashLRU", func(cp int64, o remap.Option) func(string, interface{}, int) string {
+			return tfacade(tiny.NewWideXHashLRU(cp, o))
+		}},
 	}
 	for _, m := range mks {
 		for _, shards := range []uint64{1, 2, 3, 5, 7, 73, 211} {
@@ -679,11 +717,13 @@ func firstWords(s string) string {
 
 func main() {
 	r := ev.Start("C17")
-	r.Rule("routing: shard counts 1..128, 211, 509, 1024, 4093 x every supported key type at its boundary values (all int8/uint8, boundary sets of the wider types incl. negatives and MaxUint64, strings/[]byte/Bs of length 0..3 over 3 bytes, HitGroup) through SimpleIndex and XHashIndex: in range, stable across calls and instances; SearchIndex on boundary probes k*(Max/n)+{-1,0,1,2,mid}: monotone, no shard skipped, ends at 0 and n-1. containers: breadth-first over operation sequences on (sharded, unsharded) pairs of Map, LRU, tiny LRU, KeyLocker, TKeyLocker (incl. multi-key calls), SemMap for 1,2,3,73 shards with modulo and xxhash routing, merged on the reference state, answers and hook-observed entry counts compared after every step; every sharded LRU constructor x 1..211 shards x capacities 1,2,shards-1..shards+1,2*shards+1: every key of a family is routed to an existing shard, readable right after Set and gone after Delete")
-	r.Assume("LRU capacity is large enough that the per-shard bound never binds (the property's own exception)", "locker and semaphore sequences contain only calls that cannot block (acquire with an already-cancelled context is a try-acquire)")
+	r.Rule("routing: shard counts 1..128, 211, 509, 1024, 4093 x every supported key type at its boundary values (all int8/uint8, boundary sets of the wider types incl. negatives and MaxUint64, strings/[]byte/Bs of length 0..3 over 3 bytes, HitGroup) through SimpleIndex and XHashIndex: in range, stable across calls and instances; SearchIndex on boundary probes k*(Max/n)+{-1,0,1,2,mid}: monotone, no shard skipped, ends at 0 and n-1. containers: breadth-first over operation sequences on (sharded, unsharded) pairs of Map, LRU, tiny LRU, KeyLocker, TKeyLocker (incl. multi-key calls), SemMap for 1,2,3,73 shards with modulo and xxhash routing, merged on the reference state, answers and hook-observed entry counts compared after every step; sharded LRUs with a binding capacity (1-2 shards, capacity 1/3) against per-shard unsharded LRUs routed by the public index, every answer and eviction, all sequences to depth 4/5; every sharded LRU constructor x 1..211 shards x capacities 1,2,shards-1..shards+1,2*shards+1: every key of a family is routed to an existing shard, readable right after Set and gone after Delete")
+	r.Assume("in the differential specs the LRU capacity is large enough that the per-shard bound never binds; the binding-capacity specs compare with n unsharded LRUs of the per-shard capacity routed by the public index", "locker and semaphore sequences contain only calls that cannot block (acquire with an already-cancelled context is a try-acquire)")
 	var jobs []func()
 	jobs = append(jobs, func() { seq.RunFamily(r, seq.Family{Name: "routing", Run: routing}) })
-	jobs = append(jobs, func() { seq.RunFamily(r, seq.Family{Name: "sharded-lru/capacity-near-shard-count", Run: smallCapacity}) })
+	jobs = append(jobs, func() {
+		seq.RunFamily(r, seq.Family{Name: "sharded-lru/capacity-near-shard-count", Run: smallCapacity})
+	})
 	for _, prime := range []uint64{1, 2, 3, 73} {
 		for _, xh := range []bool{false, true} {
 			prime, xh := prime, xh
@@ -744,6 +784,37 @@ func main() {
 					return &semPair{wide: w, single: semap.NewSemMap(semap.WithRwRatio(2)), holds: map[interface{}][]held{}}
 				}})
 			})
+		}
+	}
+	// binding capacity: sharded LRU (capacity c, n shards) against n unsharded LRUs of capacity c/n+1
+	// routed by the public index - every answer and every eviction must agree (no merging of states:
+	// recency matters)
+	small := []interface{}{1, 74, 2, 3, "a"}
+	for _, n := range []uint64{1, 2} {
+		for _, cp := range []int64{1, 3} {
+			for _, xh := range []bool{false, true} {
+				n, cp, xh := n, cp, xh
+				per := cp/int64(n) + 1
+				tag := fmt.Sprintf("shards=%d/capacity=%d/xxhash=%v", n, cp, xh)
+				jobs = append(jobs, func() {
+					seq.Explore(r, &seq.Spec[*lruPair]{Name: "WideLRU-binding-capacity/" + tag, Ops: lruOpsK(small), After: lruAfterK(small), Depth: r.Pick(4, 5), New: func() *lruPair {
+						w := cache.NeWideLRUCache(cp, remap.WithPrime(n))
+						if xh {
+							w = cache.NewWideXHashLRUCache(cp, remap.WithPrime(n))
+						}
+						return &lruPair{wide: facade(w), single: routed(n, xh, func() func(string, interface{}, int) string { return facade(cache.NewSingleLRUCache(per)) }), model: map[interface{}]int{}}
+					}})
+				})
+				jobs = append(jobs, func() {
+					seq.Explore(r, &seq.Spec[*lruPair]{Name: "tinyWideLRU-binding-capacity/" + tag, Ops: lruOpsK(small), After: lruAfterK(small), Depth: r.Pick(4, 5), New: func() *lruPair {
+						w := tiny.NeWideLRU(cp, remap.WithPrime(n))
+						if xh {
+							w = tiny.NewWideXHashLRU(cp, remap.WithPrime(n))
+						}
+						return &lruPair{wide: tfacade(w), single: routed(n, xh, func() func(string, interface{}, int) string { return tfacade(tiny.NewSingleLRUCache(per)) }), model: map[interface{}]int{}}
+					}})
+				})
+			}
 		}
 	}
 	seq.Parallel(16, jobs)
